@@ -158,7 +158,7 @@ PARTS = {
         sim={"quick": [dict(cfg="MC_Query_sim.cfg", num=150, depth=40)], "thorough": [dict(cfg="MC_Query_sim.cfg", num=3000, depth=60)]},
         drive={"quick": 4000, "thorough": 100000},
         trace="Trace_Query.tla", mon_cfg="Trace_Query_mon.cfg", strict_cfg="Trace_Query_strict.cfg",
-        formulas={"C09.ContactTwice": "C09", "C09.Parallelism": "C09",
+        formulas={"C09.ContactTwice": "C09", "C09.Parallelism": "C09", "Panic": "C09",
                   "C10.OrderOrSize": "C10", "C10.NotAnswered": "C10", "C10.PredicateMismatch": "C10", "C10.Incomplete": "C10"},
         interesting=lambda e: e["op"]["o"] in ("on_success", "on_failure", "drain", "result") or e["ret"][0] in ("WaitingAtCapacity",),
         required=_q_required,
